@@ -368,7 +368,8 @@ def check(run):
     direct_mode_positional_lookalikes(run)
     # the header line is never data at the record-level API either: every history of get_record / get_all_records(n) / get_header /
     # get_warnings / WITH modifier (spec/ReaderApi.tla: NoLossNoDup, HeaderStable), replayed into CSVRecordIterator
-    readerapi.check(run, quick)
+    # (only mismatches about the header line are C09's; reply counts, end of input and warnings are reported by ./check EXT)
+    readerapi.check(run, quick, clauses=('header',))
     run.exhaustive = True
 
 
@@ -381,7 +382,8 @@ def replay(path):
         for _, sigs in readerapi._replay_chunk([(0, c['case'], c['variant'])]):
             run.traces += 1
             for sig in sigs:
-                run.violation(sig, c)
+                if sig.get('clause') == 'header':
+                    run.violation(sig, c)
         return run.finish()
     if c['kind'] in ('direct_mode', 'case_variant'):
         direct_mode_last_token(run)
